@@ -522,39 +522,92 @@ func cmpsAtEnd(pred, succ *ssa.BasicBlock) []cmp { return cmpsOnEdge(pred, succ)
 
 func c13Grpcpath(c *Ctx) {
 	const rule = "C13.grpcpath"
-	for _, fn := range []*ssa.Function{c.a.FileStmtQuery, c.a.GrpcStmtQuery} {
-		name := safeFname(fn)
-		var bind *ssa.Call
-		allInstrs(fn, func(i ssa.Instruction) {
-			if call, ok := i.(*ssa.Call); ok && calleeFunc(&call.Call) == c.a.ReplacePH {
-				bind = call
+	// a result value is acceptable if it is Execute's result (file path) or ToResult(response) (gRPC path), directly
+	// or through an executing method/interface of the driver that returns such a value
+	var okResult func(v ssa.Value, depth int) bool
+	okResult = func(v ssa.Value, depth int) bool {
+		if depth > 2 {
+			return false
+		}
+		switch r := v.(type) {
+		case *ssa.Extract:
+			if r.Index != 0 {
+				return false
 			}
-		})
+			ex, ok := r.Tuple.(*ssa.Call)
+			if !ok {
+				return false
+			}
+			if calleeFunc(&ex.Call) == c.a.Execute {
+				return true
+			}
+			// a call (static or through a module interface) whose implementations all return an acceptable result
+			var impls []*ssa.Function
+			if f := calleeFunc(&ex.Call); f != nil {
+				impls = []*ssa.Function{f}
+			} else if n := c.w.CG.Nodes[ex.Parent()]; n != nil {
+				for _, e := range n.Out {
+					if e.Site == ssa.CallInstruction(ex) {
+						impls = append(impls, e.Callee.Func)
+					}
+				}
+			}
+			if len(impls) == 0 {
+				return false
+			}
+			for _, f := range impls {
+				if f == nil || !c.w.inModule(f) || f.Blocks == nil {
+					return false
+				}
+				n, good := 0, true
+				allInstrs(f, func(i ssa.Instruction) {
+					ret, isRet := i.(*ssa.Return)
+					if !isRet || isRecoverBlockReturn(ret) || len(ret.Results) == 0 {
+						return
+					}
+					rv := retVals(ret)[0]
+					if isNilConst(rv) {
+						return // error returns
+					}
+					n++
+					if !okResult(rv, depth+1) {
+						good = false
+					}
+				})
+				if n == 0 || !good {
+					return false
+				}
+			}
+			return true
+		case *ssa.Call:
+			return calleeFunc(&r.Call) == c.a.ToResult
+		}
+		return false
+	}
+	for _, anchor := range []*ssa.Function{c.a.FileStmtQuery, c.a.GrpcStmtQuery} {
+		name := safeFname(anchor)
 		n := 0
-		allInstrs(fn, func(i ssa.Instruction) {
-			call, ok := i.(*ssa.Call)
-			if !ok || calleeFunc(&call.Call) != c.a.NewRows {
-				return
-			}
-			n++
-			gp := path(call.Call.Args[1])
-			okG := bind != nil && gp.lastField() != nil && gp.lastField().Name() == "GroupBy" && peel(gp.Root) == ssa.Value(bind)
-			// result: Execute's result (file) or ToResult(response.Results[0]) (grpc)
-			okR := false
-			switch r := call.Call.Args[0].(type) {
-			case *ssa.Extract:
-				if ex, ok := r.Tuple.(*ssa.Call); ok && calleeFunc(&ex.Call) == c.a.Execute && r.Index == 0 {
-					okR = true
+		for _, fn := range c.scope(anchor, 2, c.a.ReplacePH, c.a.NumInput, c.a.NewRows) {
+			var bind *ssa.Call
+			allInstrs(fn, func(i ssa.Instruction) {
+				if call, ok := i.(*ssa.Call); ok && calleeFunc(&call.Call) == c.a.ReplacePH {
+					bind = call
 				}
-			case *ssa.Call:
-				if calleeFunc(&r.Call) == c.a.ToResult {
-					okR = true
+			})
+			allInstrs(fn, func(i ssa.Instruction) {
+				call, ok := i.(*ssa.Call)
+				if !ok || calleeFunc(&call.Call) != c.a.NewRows {
+					return
 				}
-			}
-			c.r.check(okG && okR, rule, name, "newRows(result, bound query's GroupBy)", "the rows are not built from this statement's (converted) result and the bound query's group-by list", c.w.ipos(i))
-		})
+				n++
+				gp := path(call.Call.Args[1])
+				okG := bind != nil && gp.lastField() != nil && gp.lastField().Name() == "GroupBy" && peel(gp.Root) == ssa.Value(bind)
+				okR := okResult(call.Call.Args[0], 0)
+				c.r.check(okG && okR, rule, name, "newRows(result, bound query's GroupBy)", "the rows are not built from this statement's (converted) result and the bound query's group-by list", c.w.ipos(i))
+			})
+		}
 		if n == 0 {
-			c.r.bad(rule, name, "the statement does not build rows with newRows", []string{c.w.pos(fn.Pos())})
+			c.r.bad(rule, name, "the statement does not build rows with newRows", []string{c.w.pos(anchor.Pos())})
 		}
 	}
 }
